@@ -1,4 +1,5 @@
 import TexelVerif.TT.TableLemmas
+import TexelVerif.TT.History
 /-!
 # C08 — transposition table never returns mixed or out-of-range data
 
@@ -97,6 +98,27 @@ theorem insert_stays_in_bucket (t : Table) (a : InsArgs) (i : Nat)
     (h : i < t.index (a.key ^^^ t.contempt) ∨ t.index (a.key ^^^ t.contempt) + 4 ≤ i) :
     (t.insert a).slot i = t.slot i ∧ (t.insert a).size = t.size ∧ (t.insert a).used = t.used :=
   ⟨insert_local t a i h, (insert_meta t a).1, (insert_meta t a).2.1⟩
+
+/-- **Whatever a probe returns was stored as one unit for exactly that key** (single-threaded refinement):
+    after any history of inserts, probes, generation changes, clears and contempt changes on a fresh table, a probe
+    that returns `(k, d)` returns the contempt-adjusted probe key and a data word that some earlier `insert` wrote for
+    that very key as one unit, up to the generation field (which probes refresh) — or the all-zero word of an empty slot,
+    whose type field is `T_EMPTY` and which every caller treats as a miss. -/
+theorem probe_hit_was_inserted (n : Nat) (ops : List Op) (key : W) (k d : W)
+    (h : ((runOps (Table.new n) ops).probe key).2 = some (k, d)) :
+    k = key ^^^ (runOps (Table.new n) ops).contempt ∧
+    ((k = 0 ∧ clearGen d = clearGen 0) ∨ ∃ u ∈ unitsOf (Table.new n) ops, u.1 = k ∧ clearGen d = clearGen u.2) := by
+  have hinv := inv_runOps (Table.new n) ops [(0, 0)] (inv_new n) (by simp)
+  have hp := (probe_go_spec (runOps (Table.new n) ops) (key ^^^ (runOps (Table.new n) ops).contempt)
+    ((runOps (Table.new n) ops).index (key ^^^ (runOps (Table.new n) ops).contempt)) _ hinv (by simp) 4 0).2 k d h
+  obtain ⟨hk, u, hu, hu1, hu2⟩ := hp
+  refine ⟨hk, ?_⟩
+  rcases List.mem_append.1 hu with h0 | h1
+  · left
+    have : u = (0, 0) := by simpa using h0
+    subst this
+    exact ⟨by rw [hk, ← hu1], hu2⟩
+  · exact Or.inr ⟨u, h1, by rw [hu1, hk], hu2⟩
 
 -- non-vacuity: concrete instances of the hypotheses
 example : (512 : Nat) ≤ 65536 ∧ (65536 : Nat) < 2^72 := by decide
